@@ -83,10 +83,12 @@ def boxedGcd (a b : List Nat) : Option (List Nat) :=
     | none => none
   | _, _ => none
 
-/-- `BoxedUint::gcd_vartime`: odd `self` → `Odd::gcd_vartime` (result at `self`'s precision),
-    else the constant-time `gcd` (result at the larger precision). -/
+/-- `BoxedUint::gcd_vartime`: odd `self` → `Odd::gcd_vartime` (result at `self`'s precision) widened to the
+    larger of the two operand precisions (since /repo 30286aa, as `gcd` returns it), else the constant-time `gcd`
+    (result at the larger precision). -/
 def boxedGcdVartime (a b : List Nat) : Option (List Nat) :=
-  if a.headD 0 % 2 = 1 then boxedOddGcd true a b else boxedGcd a b
+  if a.headD 0 % 2 = 1 then (boxedOddGcd true a b).map (fun r => widenBoxed r (max a.length b.length))
+  else boxedGcd a b
 
 /-- the behaviour BEFORE /repo 1970abd (kept for the record, not used by the driver): no widening —
     a shorter `rhs` indexes out of bounds, a longer one is cut to `self`'s precision. -/
